@@ -128,7 +128,15 @@ func (s *limSUT) observe() any {
 	s.lim.mu.Lock()
 	n := s.lim.n
 	s.lim.mu.Unlock()
-	return J{"gauge": int(s.dl.VerifInFlight()), "busy": s.busy(), "limit": s.limit(), "est": s.lim.EstimatedLimit(), "nsamp": n, "bl": bl}
+	reg := s.reg
+	if s.part != nil {
+		reg = s.part.reg
+	}
+	gl, ok := reg.Gauge(core.MetricLimit)
+	if !ok {
+		gl = -1
+	}
+	return J{"gauge": int(s.dl.VerifInFlight()), "busy": s.busy(), "limit": s.limit(), "est": s.lim.EstimatedLimit(), "nsamp": n, "bl": bl, "glimit": gl}
 }
 
 func (s *limSUT) apply(op limOp) (res J, err error) {
